@@ -235,6 +235,22 @@ def judge(case):
                 tagc = tagc or "@zone-with-transitions"      # regenerating from the other library's conversion is not comparable
             if again.to_ical() != vt.to_ical():
                 fails.append(Failure(f"C13.regenerate{tagc}", f"regenerated-component-differs{tagc}", _first_diff(vt.to_ical(), again.to_ical())))
+                if tagc and lib == provider and not big_jump:      # (a 24 h jump cannot be converted back: RC-M @24h-jump)
+                    # inside the region of RC-M the bytes differ for known reasons (DTSTART convention, first observance kind); what
+                    # the second generation *means* is still checked: read by the RFC rules it must agree with the source zone at
+                    # every instant more than 25 h away from a transition where the first generation agreed
+                    defn2 = read_component(again)
+                    ons2 = Z.utc_onsets(defn2)
+                    for t in pts:
+                        if classify(provider, trs, t, converted=True, all_trs=all_trs):
+                            continue
+                        want = truth(tz_src, t)
+                        i1, i2 = Z.lookup(defn, ons, t), Z.lookup(defn2, ons2, t)
+                        g1 = None if i1 is None else (timedelta(seconds=defn["obs"][i1]["to"]), defn["obs"][i1]["name"])
+                        g2 = None if i2 is None else (timedelta(seconds=defn2["obs"][i2]["to"]), defn2["obs"][i2]["name"])
+                        if g1 == want and g2 != want:
+                            fails.append(Failure("C13.regenerate-meaning", "regenerated-component-means-something-else", f"{zone} t={t}Z: first generation {g1!r}, second {g2!r}, source zone {want!r}"))
+                            break
         except Exception as e:
             fails.append(Failure(f"C13.regenerate{tagc}", f"regenerate-raises{tagc}/" + exc_signature(e), repr(e)[:300]))
     return fails
